@@ -219,6 +219,13 @@ type World struct {
 
 	resSeq int64
 
+	// interned source objects: the reactive cache of Expensive fields is keyed
+	// by (field, source, selection), so an object that leaves the result and
+	// comes back must come back as the same source pointer
+	internMu sync.Mutex
+	views    map[string]*View
+	items    map[string]*Item
+
 	gmu     sync.Mutex
 	gArmed  bool
 	gPhase  int
@@ -231,7 +238,7 @@ type World struct {
 // NewWorld builds a world with the given initial values and cell modes.
 // modes maps cell name -> mode; missing cells get defMode.
 func NewWorld(log *Log, init map[string]interface{}, modes map[string]int, defMode int) *World {
-	w := &World{Log: log, cells: map[string]*cell{}}
+	w := &World{Log: log, cells: map[string]*cell{}, views: map[string]*View{}, items: map[string]*Item{}}
 	for name, v := range init {
 		m, ok := modes[name]
 		if !ok {
@@ -368,6 +375,29 @@ func (w *World) read(ctx context.Context, tag, name string) interface{} {
 	return v
 }
 
+func (w *World) view(tag string) *View {
+	w.internMu.Lock()
+	defer w.internMu.Unlock()
+	v := w.views[tag]
+	if v == nil {
+		v = &View{w: w, tag: tag}
+		w.views[tag] = v
+	}
+	return v
+}
+
+func (w *World) item(tag string, id int64) *Item {
+	k := fmt.Sprintf("%s/%d", tag, id)
+	w.internMu.Lock()
+	defer w.internMu.Unlock()
+	it := w.items[k]
+	if it == nil {
+		it = &Item{Id: id, w: w, tag: tag}
+		w.items[k] = it
+	}
+	return it
+}
+
 func uvalKU(u UVal) *KU {
 	switch u.Kind {
 	case "A":
@@ -392,7 +422,7 @@ func (w *World) buildSchema() *graphql.Schema {
 	sb := schemabuilder.NewSchema()
 	q := sb.Query()
 	q.FieldFunc("root", func(args struct{ Tag string }) *View {
-		return &View{w: w, tag: args.Tag}
+		return w.view(args.Tag)
 	})
 	m := sb.Mutation()
 	m.FieldFunc("apply", func(ctx context.Context, args struct{ Op int64 }) (int64, error) {
@@ -431,9 +461,17 @@ func (w *World) buildSchema() *graphql.Schema {
 		ids := w.read(ctx, v.tag, "items").([]int64)
 		out := make([]*Item, 0, len(ids))
 		for _, id := range ids {
-			out = append(out, &Item{Id: id, w: w, tag: v.tag})
+			out = append(out, w.item(v.tag, id))
 		}
 		return out
+	})
+	// pick: a nullable keyed object (one of the items, or null)
+	v.FieldFunc("pick", func(ctx context.Context, v *View) *Item {
+		id := w.read(ctx, v.tag, "pick").(int64)
+		if id < 0 {
+			return nil
+		}
+		return w.item(v.tag, id)
 	})
 	v.FieldFunc("plain", func(ctx context.Context, v *View) []*Plain {
 		ps := w.read(ctx, v.tag, "plain").([]PlainVal)
@@ -536,10 +574,15 @@ func (w *World) buildSchema() *graphql.Schema {
 		ids := i.w.read(ctx, i.tag, fmt.Sprintf("kids:%d", i.Id%2)).([]int64)
 		out := make([]*Item, 0, len(ids))
 		for _, id := range ids {
-			out = append(out, &Item{Id: id, w: i.w, tag: i.tag})
+			out = append(out, i.w.item(i.tag, id))
 		}
 		return out
 	})
+	// cost: an Expensive field on a list element / nullable object; it goes
+	// through reactive.Cache, keyed by the (interned) item
+	it.FieldFunc("cost", func(ctx context.Context, i *Item) int64 {
+		return i.w.read(ctx, i.tag, fmt.Sprintf("item:%d", i.Id)).(ItemVal).W
+	}, schemabuilder.Expensive)
 	sb.Object("Obj", Obj{})
 	sb.Object("Inner", Inner{})
 	sb.Object("Plain", Plain{})
